@@ -172,6 +172,9 @@ def make_stream(spec, asgi, fault, cnt):
         if kind in ('file', 'file_short'):
             def close(self):
                 cnt.closes += 1
+                if fault and fault[0] == 'close_raises':
+                    cnt.raised = True
+                    raise OSError('close() failed')
             F.close = close
         return F()
     if kind == 'agen':
@@ -315,6 +318,8 @@ def run(ctx):
             for j in range(n_chunks + 1):
                 if ctx.opportunity('server_abandons'):
                     abandon = j
+            if spec['stream']['kind'] in ('file', 'file_short') and ctx.opportunity('stream_close_raises'):
+                fault = ('close_raises', 0)      # the stream's own close() fails (still: called once)
     if asgi:
         n_sends = 2 + n_chunks + (len(spec['sse']) if spec['sse'] else 0)
         for j in range(min(n_sends, 8)):
@@ -537,7 +542,8 @@ def run(ctx):
         ctx.sched_key = 'W'
         if ex.abandoned:
             ctx.probe('abandoned')
-        if ex.iter_error is not None and not isinstance(ex.iter_error, StreamBroken):
+        if ex.iter_error is not None and not isinstance(ex.iter_error, StreamBroken) \
+                and not (fault and fault[0] == 'close_raises' and isinstance(ex.iter_error, OSError)):
             ctx.violate('resp.iter_error', 'iterating the response raised %r' % (ex.iter_error,))
     ctx.sched_key += '|%r|%r|%r|%r' % (fault, send_fail, abandon, send_cancel)
     for oid, msg in viol:
